@@ -4,12 +4,22 @@
 *same clause* of the same property."""
 
 
+import os
+import time as _walltime  # wall clock bounds the minimiser's effort only (never its result's validity)
+
+
 class Budget(object):
-    def __init__(self, n):
+    def __init__(self, n, wall_s=None):
         self.left = n
+        if wall_s is None:
+            wall_s = float(os.environ.get("PMSIM_SHRINK_WALL_S", "45"))
+        self.deadline = _walltime.time() + wall_s
 
     def take(self):
         if self.left <= 0:
+            return False
+        if _walltime.time() > self.deadline:
+            self.left = 0
             return False
         self.left -= 1
         return True
